@@ -184,11 +184,9 @@ def run_controller(chk):
         byw = {}
         if mine:
             want = set(f["w"] for f in mine)
-            with open(obs_path) as fh:
-                for line in fh:
-                    m = re.search(r'"w":"([^"]*)"', line)
-                    if m and m.group(1) in want:
-                        byw.setdefault(m.group(1), []).append(json.loads(line))
+            for wname, ol in vlib.iter_walk_obs(obs_path):
+                if wname in want:
+                    byw[wname] = ol
         chk.cov["traces_validated_against_impl"] += len(steps)
         chk.cov["evaluations"] += nlines
         chk.cov["distinct_nontrivial"] += len(nontrivial)
